@@ -23,7 +23,7 @@ THOROUGH_MIN_SCALE = 3
 
 MODES = [("sealed", 8), ("sealed", 16), ("ext", 64), ("ext", 72)]
 VERSIONS = [(0, 1), (0, 2), (1, 0), (1, 1), (1, 2), (2, 0), (2, 1)]
-PORTS = [None, 100, 101]
+PORTS = [None, 100, 101, 0, 511]  # 0 and 511: the smallest port-ID and the largest one valid for both kinds
 
 
 def plan(tier):
